@@ -305,8 +305,8 @@ func runCheck(prop, tier string, only string) int {
 			if v.Known != "" {
 				k := ex.kfOpen[v.Known]
 				line := fmt.Sprintf("KNOWN-FINDING: property=%s %s [%s; harness %s, %s %q at %s, %d path(s)]", prop, k.What, k.ID, h.Func, v.Kind, v.Label, relPos(v.Pos), a.Count)
-				if !printedKF[k.ID+v.Kind+v.Label] {
-					printedKF[k.ID+v.Kind+v.Label] = true
+				if !printedKF[k.ID] {
+					printedKF[k.ID] = true
 					fmt.Println(line)
 				}
 				rep.KnownFindings = append(rep.KnownFindings, line)
